@@ -500,7 +500,7 @@ struct Evaluator {
 
 VERIF_TARGET(c11_flags, init, 24, 220,
              "a VALID spend of a template (bare/P2SH/P2WSH/P2SH-P2WSH x {pk,pkh,multisig,CLTV,CSV,IF/ELSE,failing-sig-NOT}, P2WPKH, P2SH-P2WPKH, P2TR key path, "
-             "P2TR script path with tapscript leaves, unknown witness programs) in a 1-3 input transaction, signed with harness keys under random sighash types, "
+             "P2TR script path with tapscript leaves, unknown/odd witness programs bare and P2SH-wrapped incl. all-zero / negative-zero program bytes and lengths 1,2,3,40,41) in a 1-3 input transaction, signed with harness keys under random sighash types, "
              "then 0-3 flag-sensitive relaxations (high-S, non-DER padding, undefined hashtype, hybrid/uncompressed key, non-null dummy, non-push or non-minimal "
              "scriptSig, non-minimal number, extra stack item, NOP1-10, unsatisfied CLTV/CSV, broken/unexpected witness, non-minimal IF argument, non-empty failing "
              "signature, CODESEPARATOR, failing P2SH redeem, malleated witness scriptSig, unknown leaf version, OP_SUCCESS, unknown tapscript pubkey type, annex, bad "
@@ -651,14 +651,28 @@ VERIF_TARGET(c11_flags, init, 24, 220,
     case T_WITUNKNOWN: {
         unsigned mode = unsigned(s.index(6));
         unsigned ver = mode == 0 ? 1 : unsigned(s.range<unsigned>(2, 16));
-        size_t len = mode == 0 ? s.pick<size_t>({2, 20, 31, 33, 40}) : s.pick<size_t>({2, 20, 32, 40});
-        valtype prog(len, uint8_t(0x5a));
+        size_t len = mode == 0 ? s.pick<size_t>({2, 20, 31, 33, 40, 3}) : s.pick<size_t>({2, 20, 32, 40, 3, 41, 1});
+        // program bytes: ordinary (truthy), or boundary values that are FALSE as a stack element: all zero, negative zero (00..0080), or a
+        // single non-zero byte somewhere (true). The program is what the scriptPubKey / redeemScript leaves on the stack.
+        const unsigned fill = unsigned(s.index(4));
+        auto filled = [&](size_t n, uint8_t ordinary) {
+            valtype v(n, fill == 0 ? ordinary : uint8_t(0));
+            if (fill == 2 && n) v.back() = 0x80;
+            if (fill == 3 && n) v[n / 2] = 0x01;
+            return v;
+        };
+        valtype prog = filled(len, 0x5a);
         if (mode == 1) { ver = 1; prog = {0x4e, 0x73}; }              // pay-to-anchor
-        if (mode == 2) { ver = 0; prog = valtype(s.pick<size_t>({2, 19, 21, 33, 40}), 0x21); } // v0 with a wrong length: fails once WITNESS is on
+        if (mode == 2) { ver = 0; prog = filled(s.pick<size_t>({2, 19, 21, 33, 40, 20, 32}), 0x21); } // v0 with a wrong length / unknown hash: fails once WITNESS is on
         CScript wp = CScript() << CScript::EncodeOP_N(int(ver)) << prog;
-        if (mode == 3) { redeem = CScript() << OP_1 << valtype(32, 0x33); spk = CScript() << OP_HASH160 << ToByteVector(Hash160(redeem)) << OP_EQUAL; } // P2SH-wrapped v1/32: not taproot
-        else if (mode == 4) { redeem = wp; spk = CScript() << OP_HASH160 << ToByteVector(Hash160(redeem)) << OP_EQUAL; }
+        if (mode == 3) { redeem = CScript() << OP_1 << filled(32, 0x33); spk = CScript() << OP_HASH160 << ToByteVector(Hash160(redeem)) << OP_EQUAL; } // P2SH-wrapped v1/32: not taproot
+        else if (mode == 4 || (mode == 5 && s.boolean())) { redeem = wp; spk = CScript() << OP_HASH160 << ToByteVector(Hash160(redeem)) << OP_EQUAL; }
         else spk = wp;
+        const bool false_bytes = (fill == 1 || fill == 2) && mode != 1;
+        if (false_bytes) st.cls(redeem.empty() ? "witprog:false-bytes-bare" : "witprog:false-bytes-p2sh-wrapped");
+        if (fill == 3) st.cls("witprog:single-nonzero-byte");
+        st.mix(uint64_t(100 + fill)); st.mix(uint64_t(mode));
+        targets |= B(SCRIPT_VERIFY_DISCOURAGE_UPGRADABLE_WITNESS_PROGRAM); // keep it out of the first base set: unknown programs are then decided by the other flags
         break;
     }
     }
@@ -776,6 +790,7 @@ VERIF_TARGET(c11_flags, init, 24, 220,
     auto add = [&](uint64_t f) { if (valid_combo(f) && std::find(sets.begin(), sets.end(), f) == sets.end()) sets.push_back(f); };
     const uint64_t STANDARD = STANDARD_SCRIPT_VERIFY_FLAGS.as_int(), MANDATORY = MANDATORY_SCRIPT_VERIFY_FLAGS.as_int();
     add(0); add(ALL_FLAGS); add(STANDARD); add(MANDATORY); add(g.consensus_next); add(g.consensus_tip);
+    add(B(SCRIPT_VERIFY_P2SH)); add(B(SCRIPT_VERIFY_P2SH) | B(SCRIPT_VERIFY_WITNESS)); add(B(SCRIPT_VERIFY_P2SH) | B(SCRIPT_VERIFY_WITNESS) | B(SCRIPT_VERIFY_TAPROOT)); // the historical soft-fork steps
     add(close_down(ALL_FLAGS & ~targets)); // everything except what the relaxations are aimed at
     for (int b = 0; b < 2; ++b) {
         uint64_t base = s.ConsumeIntegral<uint32_t>() & ALL_FLAGS;
